@@ -12,9 +12,10 @@ namespace Sem
 
 def lg (ls : List Log) : List Ev := ls.map .log
 
-/-- `keepFailLogs = true` is the property as stated (C08: *every* emitted log is delivered); `false` is the behaviour as
-built, where the logs of a `process()` call that fails are discarded with its collector (Findings/C08). -/
-def failLogs (keep : Bool) (s : Step) : List Ev := if keep then lg s.logs else []
+/-- The logs a failing `process()` call emitted before it failed are delivered (C08: *every* emitted log).  The `keep`
+flag is historical: the pinned tree discarded them (`keep = false` then meant "as built"); since the repair
+(known_findings/C08.json) as-built and as-specified coincide and the flag is ignored. -/
+def failLogs (_keep : Bool) (s : Step) : List Ev := lg s.logs
 
 /-- a producer stream iterated to its end -/
 def producer (keep : Bool) : List Step → List Ev
@@ -33,8 +34,8 @@ def exchange (keep : Bool) : List Step → List Ev
   | s :: r =>
     match s.act with
     | .emit b => lg s.logs ++ [.data b] ++ lg s.post ++ exchange keep r
-    | .finish => failLogs keep s ++ [errEv finishOnExchangeExn]
-    | .emitFinish _ => failLogs keep s ++ [errEv finishOnExchangeExn]
+    | .finish => failLogs keep s ++ lg s.post ++ [errEv finishOnExchangeExn]
+    | .emitFinish _ => failLogs keep s ++ lg s.post ++ [errEv finishOnExchangeExn]
     | .raise e => failLogs keep s ++ [errEv e]
     | .nothing => failLogs keep s ++ [errEv noDataExn]
 
